@@ -43,6 +43,22 @@ func (x *Exec) recordStatus(st *State, w *Term, code *Term) {
 func init() {
 	models["net/http.Error"] = func(x *Exec, fr *Frame, st *State, pc *preparedCall, k func(*State, []Value)) {
 		x.statusCodeObligation(fr, st, pc, "http.Error", pc.args[2].(IntV).T)
+		// http.Error (Go 1.23+): deletes Content-Length, Content-Encoding, Etag and Last-Modified, sets
+		// Content-Type and X-Content-Type-Options; every other header already set is kept
+		if wv := pc.args[0]; wv != nil {
+			hp := x.L.pkgOf("net/http")
+			if hp != nil {
+				mt := hp.Types.Scope().Lookup("Header").Type().Underlying().(*types.Map)
+				id := App("rwheader", SInt, x.asTerm(wv))
+				st.assumeRaw(Gt(id, IntLit(1<<50)))
+				h := MapV{ID: id, Type: mt}
+				for _, name := range []string{"Content-Length", "Content-Encoding", "Etag", "Last-Modified"} {
+					x.mapDelete(st, h, x.canonKey(st, x.strLit(name)))
+				}
+				x.mapSet(st, h, x.canonKey(st, x.strLit("Content-Type")), newStrSlice(x, st, []StrV{x.strLit("text/plain; charset=utf-8")}))
+				x.mapSet(st, h, x.canonKey(st, x.strLit("X-Content-Type-Options")), newStrSlice(x, st, []StrV{x.strLit("nosniff")}))
+			}
+		}
 		x.recordStatus(st, x.asTerm(pc.args[0]), pc.args[2].(IntV).T)
 		k(st, nil)
 	}
